@@ -169,6 +169,12 @@ def tamperBlock (b : Block) (field variant : String) : Option Block :=
     | .del k :: r => some { b with txs := .put k 1 :: r }
     | .cas k e v :: r => some { b with txs := .cas k e (v + 1) :: r }
     | [] => none
+  | "transactions", "alter_last" =>
+    match b.txs.getLast? with
+    | some (.put k v) => some { b with txs := b.txs.dropLast ++ [.put k (v + 1)] }
+    | some (.del k) => some { b with txs := b.txs.dropLast ++ [.put k 1] }
+    | some (.cas k e v) => some { b with txs := b.txs.dropLast ++ [.cas k e (v + 1)] }
+    | none => none
   | "transactions", "push_new" => some { b with txs := b.txs ++ [.put 999 999] }
   | "transactions", "swap_first_two" =>
     match b.txs with
@@ -354,6 +360,33 @@ def chainStep (d : Drv) (line : String) : Drv × String :=
           if b' = b then (d, "skip")
           else ({ d with raw := { d.raw with store := sput d.raw.store (.block i) (.block b') } }, "ok")
         | none => (d, "skip")
+    | none => bad
+  -- transaction `k` of stored block `i` replaced by `tx` (raw chain: `altertx`, the node's chain: `naltertx`);
+  -- `skip` = no such position or the same transaction
+  | ["altertx", i, k, tx] => match i.toNat?, k.toNat?, parseTx tx with
+    | some i, some k, some t =>
+      match blockAt d.raw.store i with
+      | none => (d, "noblock")
+      | some b =>
+        if k < b.txs.length ∧ b.setTx k t ≠ b then
+          ({ d with raw := { d.raw with store := sput d.raw.store (.block i) (.block (b.setTx k t)) } }, "ok")
+        else (d, "skip")
+    | _, _, _ => bad
+  | ["naltertx", i, k, tx] => match i.toNat?, k.toNat?, parseTx tx with
+    | some i, some k, some t =>
+      match blockAt d.node.chain.store i with
+      | none => (d, "noblock")
+      | some b =>
+        if k < b.txs.length ∧ b.setTx k t ≠ b then
+          ({ d with node := { d.node with chain := { d.node.chain with
+              store := sput d.node.chain.store (.block i) (.block (b.setTx k t)) } } }, "ok")
+        else (d, "skip")
+    | _, _, _ => bad
+  -- the transactions of stored block `i` of the node's chain, in block order
+  | ["nblocktxs", i] => match i.toNat? with
+    | some i => match blockAt d.node.chain.store i with
+      | some b => (d, showList (b.txs.map showTx))
+      | none => (d, "noblock")
     | none => bad
   | ["remove", i] => match i.toNat? with
     | some i => ({ d with raw := { d.raw with store := sdel d.raw.store (.block i) } }, "ok")
